@@ -459,13 +459,13 @@ def replay(ctx, data, pid):
             if isinstance(w, dict) and "scenario" in w:
                 scn = w["scenario"]
                 break
-    if scn is None or "cfg" not in scn:
-        print("replay: no producer scenario in this file:", json.dumps(data)[:400])
-        return 2
-    if scn.get("fullstack"):
+    if scn is not None and scn.get("fullstack"):
         from harness.lib import producer_fullstack as FS
 
         return FS.replay(ctx, scn, pid)
+    if scn is None or "cfg" not in scn:
+        print("replay: no producer scenario in this file:", json.dumps(data)[:400])
+        return 2
     scn, real, d, fails = run_one(pid, scn)
     ans = core.run_model("producer", D.model_requests(real))
     print("replay: cfg", json.dumps(scn["cfg"]))
